@@ -490,11 +490,11 @@ OBLIGATIONS = [
     Ob('server_reply', server_reply,
        sym=dict(ti=R(0, 23), outcome=R(0, 4), ei=R(0, 14), pktid_i=R(0, 3)),
        shards=dict(version=[3, 6], ext=[False, True], L=[0, 4, 5], ei=[0], pktid_i=[3]),
-       thorough_shards=dict(version=[3, 4, 5, 6], ext=[False, True], L=[0, 1, 4, 5, 8, 9, 13], ei=[7], ti=list(range(24))),
+       thorough_shards=dict(version=[3, 4, 5, 6], ext=[False, True], L=[0, 1, 4, 5, 8], ei=[7], ti=[0, 1, 2, 3, 4, 5, 6, 7, 8, 9, 10, 11, 12, 13, 14, 15, 16, 17, 18, 19, 20, 21, 22, 23]),
        pre=['ti <= 23 if not ext else ti <= 9'],
        timeout=200, thorough_timeout=600,
        functions=[S.SFTPServerHandler._process_packet] + [v for k, v in S.SFTPServerHandler._packet_handlers.items()],
-       bounds='every request type in the handler table + unknown types / extended names; body = arbitrary bytes of length {0,4,5} (thorough up to 13, request type sharded); '
+       bounds='every request type in the handler table + unknown types / extended names; body = arbitrary bytes of length {0,4,5} (thorough {0,1,4,5,8}, request type sharded); '
               'backing operation returns / raises OSError / SFTPError / NotImplementedError; versions 3 and 6 (thorough 3..6)'),
     Ob('server_ext_name', server_ext_name, sym=dict(cut=R(0, 8)), shards=dict(version=[3, 6]), timeout=60,
        functions=[S.SFTPServerHandler._process_packet], bounds='FXP_EXTENDED body cut at 0..8 bytes (inside the name string)'),
@@ -533,5 +533,5 @@ MANIFEST = dict(
          'waiter of the reply id (ids across the 2^32 wrap), an unknown id fails all, an ill-typed reply is SFTPBadMessage for that caller only; '
          'SFTPAttrs/SFTPName round-trip for every carriable field combination in versions 3-6; attribute flag words are rejected exactly when they '
          'contain a bit the version does not define (bit-vector proof over all 2^32 words).',
-    note='Bodies longer than 13 bytes, more than 3 outstanding requests and real file operations are outside; the SFTPServer application object is a '
+    note='Bodies longer than 8 bytes, more than 3 outstanding requests and real file operations are outside; the SFTPServer application object is a '
          'stub. The flag masks in REF_MASK are transcribed from the filexfer drafts and are part of the trusted base, as are CrossHair, z3 and vf/engine_b.py.')
